@@ -33,3 +33,38 @@ func (g *Gen) actIngestPair() {
 	g.track(t2)
 	g.afterWrite()
 }
+
+// actRkAbut: one ingested table holding range keys that ABUT with the same suffix (and, inside
+// one table, the same sequence number) but different values, then a real (non-move) compaction of
+// that table.  Compactions defragment with a stricter rule than user iteration does; the spans
+// must stay distinct wherever their values differ.
+func (g *Gen) actRkAbut() {
+	u := g.U
+	if g.P.RangeKeys == 0 || u.P < 2 {
+		g.actIngest()
+		return
+	}
+	g.preIngest()
+	s := g.Rng.IntN(u.S + 1)
+	n := 2 + g.Rng.IntN(min(2, u.P-1)) // 2..3 abutting spans, one prefix each
+	p0 := g.Rng.IntN(u.P - n + 1)
+	var tbl []Ev
+	for j := 0; j < n; j++ {
+		a, b := (p0+j)*(u.S+1), (p0+j+1)*(u.S+1)
+		tbl = append(tbl, Ev{"o": "rkset", "a": a, "b": b, "s": s, "v": g.v()})
+		if g.Rng.IntN(3) == 0 {
+			// a second suffix over the same span, equal on both sides of the boundary or not
+			tbl = append(tbl, Ev{"o": "rkset", "a": a, "b": b, "s": (s + 1) % (u.S + 1), "v": g.v()})
+		}
+	}
+	g.R.Exec(Ev{"op": "ingest", "tables": [][]Ev{tbl}, "ops": tbl})
+	g.track(tbl)
+	// a point inside the first span, flushed, so that compacting the range is not a move
+	ops := []Ev{{"o": "set", "k": p0*(u.S+1) + g.Rng.IntN(u.S+1), "v": g.v()}}
+	g.R.Exec(Ev{"op": "commit", "ops": ops, "sync": false})
+	g.track(ops)
+	g.R.Exec(Ev{"op": "maint", "kind": "flush"})
+	g.R.Exec(Ev{"op": "maint", "kind": "compact"})
+	g.afterWrite()
+	g.afterMaint()
+}
